@@ -474,6 +474,13 @@ class HTTP(BaseComponent):
         if res.done:
             return
 
+        if req.handled:
+            # the error response could not be sent either: give up instead of
+            # producing (and failing to send) error responses for ever
+            self.fire(close(req.sock))
+            return
+        req.handled = True
+
         res = wrappers.Response(req, self._encoding, 500)
         self.fire(httperror(req, res, error=error))
 
